@@ -127,8 +127,22 @@ def run(ctx, chk):
             # fails under this valuation is a gate whose failure does not settle the result before
             # the draw (a gate tested before the draw ends the step whatever else holds, so it is
             # never among them on a valuation where the draw still matters)
-            failing = [g for g in req
-                       if not f_eval(GATES[g], {a: v.get(a, False) for a in f_atoms(GATES[g])})]
+            # (a gate "fails under this valuation" when the valuation's literals exclude it - by
+            # implication, with the theory of canon.py, so that a derived existential that is the
+            # oracle's up to a domain invariant counts as the oracle's)
+            from sa.canon import EXISTS_BODY
+            lits = []
+            for a_, b_ in v.items():
+                fa = ("exists",) + EXISTS_BODY[a_] if a_ in EXISTS_BODY else A(a_)
+                lits.append(fa if b_ else f_not(fa))
+            Lf = f_and(lits)
+            failing = []
+            for g in req:
+                if all(a_ in v for a_ in f_atoms(GATES[g])):
+                    if not f_eval(GATES[g], v):
+                        failing.append(g)
+                elif f_implies(Lf, f_not(GATES[g])):
+                    failing.append(g)
             for g in failing or ["an unrecognised precondition"]:
                 if g not in dep:
                     dep[g] = (sigs[0], sigs[1])
